@@ -71,6 +71,22 @@ func genCase(t *rapid.T) *Case {
 		at := rapid.IntRange(0, len(c.Ops)).Draw(t, "rat")
 		c.Ops = append(append(append([]Op{}, c.Ops[:at]...), steer...), c.Ops[at:]...)
 	}
+	if rapid.IntRange(0, 2).Draw(t, "flap") == 0 {
+		// steer: the target of a pending delayed switch goes away and comes back around the timer
+		perm := rapid.Permutation([]int{0, 1, 2, 3, 4}).Draw(t, "fperm")
+		x, y := perm[0], perm[1]
+		steer := []Op{{K: "avail", E: x, B: true}, {K: "avail", E: y, B: true}, {K: "avail", E: y, B: false}}
+		if rapid.Bool().Draw(t, "fviaset") {
+			steer[2] = Op{K: "set", L: []int{x, perm[2]}} // the target leaves the list instead
+		}
+		steer = append(steer, Op{K: "advfire"})
+		if steer[2].K == "set" {
+			steer = append(steer, Op{K: "set", L: []int{y, x, perm[2]}})
+		}
+		steer = append(steer, Op{K: "avail", E: y, B: true}, Op{K: "advfire"})
+		at := rapid.IntRange(0, len(c.Ops)).Draw(t, "fat")
+		c.Ops = append(append(append([]Op{}, c.Ops[:at]...), steer...), c.Ops[at:]...)
+	}
 	// every history ends with quiescence so that convergence is always examined
 	c.Ops = append(c.Ops, Op{K: "quiesce"})
 	return c
